@@ -217,6 +217,7 @@ func uploadBundle(ctx context.Context, bundle *Bundle, bundleEntriesPerFile uint
 	if err != nil {
 		return err
 	}
+	files = uniqueKeys(files)
 
 	if len(files) == 0 {
 		bundle.l.Warn("Uploading bundle with 0 files")
@@ -342,6 +343,21 @@ func uploadBundle(ctx context.Context, bundle *Bundle, bundleEntriesPerFile uint
 		zap.String("BundleID", bundle.BundleID),
 	)
 	return nil
+}
+
+// uniqueKeys removes repeated keys from a list of files to upload, preserving order:
+// a file listed twice is uploaded once and yields a single bundle entry.
+func uniqueKeys(files []string) []string {
+	seen := make(map[string]struct{}, len(files))
+	unique := make([]string, 0, len(files))
+	for _, file := range files {
+		if _, dupe := seen[file]; dupe {
+			continue
+		}
+		seen[file] = struct{}{}
+		unique = append(unique, file)
+	}
+	return unique
 }
 
 func validateBundle(bundle *Bundle) bool {
